@@ -1,7 +1,11 @@
 prop("C24",
      level="proof",
      theorems=["NeoFS.Validate.stored_implies_valid", "NeoFS.Validate.unprepared_stored_is_streamed",
-               "NeoFS.Validate.downstream_error_surfaces", "NeoFS.Validate.chunking_irrelevant", "NeoFS.Validate.writes_ok"],
+               "NeoFS.Validate.downstream_error_surfaces", "NeoFS.Validate.chunking_irrelevant", "NeoFS.Validate.writes_ok",
+               "NeoFS.Validate.cacheAuth_sound", "NeoFS.Validate.auth_verdict_cache_independent",
+               "NeoFS.Validate.authSeq_history_independent", "NeoFS.Validate.auth_last_verdict_history_independent",
+               "NeoFS.Validate.authenticated_owner_bound", "NeoFS.Validate.stored_implies_format_valid",
+               "NeoFS.Validate.cluster_ok_implies_stored", "NeoFS.Validate.outsider_stores_nothing"],
      engines=[dict(name="validate", quick=1, thorough=1)],
      lean_modules=["NeoFS.Props.C24"],
      claim="PARTIAL. Lean theorems over Model/Validate.lean (the validatingTarget state machine of the PUT pipeline: WriteHeader checks in "
@@ -22,16 +26,44 @@ prop("C24",
            "owner, old version), prepared and unprepared, streamed in several chunkings through the REAL validatingTarget + FormatValidator "
            "(real ECDSA, SHA-256, ID hashing) over a recording downstream target; the oracle re-validates independently (SDK VerifyID, "
            "VerifySignature, SHA-256 of received bytes, owner = signer key, attribute rules) everything the downstream target was told to store. "
-           "NOT covered: EC part / parent header rules (checkEC*), split and nested parent headers, session tokens, tombstone/lock/link content "
-           "rules, Server.Replicate and ValidateAndStoreObjectLocally entry points, the slicer's child assembly (slices_reassemble).",
+           "(5) AUTHENTICATION HAS NO MEMORY: AuthenticateObject with the node's shared ObjectSessionsCache (an LRU keyed by the token hash, "
+           "modelled with eviction for every capacity) - for every token table, every capacity and EVERY sequence of objects validated by one "
+           "validator, the verdict of each object equals the verdict of a validator that has never seen a token (cacheAuth_sound, "
+           "auth_verdict_cache_independent, authSeq_history_independent, auth_last_verdict_history_independent), and an accepted object is "
+           "bound to its owner: the owner signed it, or it carries an authentic session token issued BY THE OWNER for the signing key "
+           "(authenticated_owner_bound). Tie: op authseq - ONE real FormatValidator with ONE real ObjectSessionsCache (capacity 1, 2, 3, 8) "
+           "validates sequences of SDK-sealed objects: 7 session tokens (V1 and V2, issued by two owners, with broken token signatures, for "
+           "another key) x 3 owners x 3 signing keys x broken object signatures, same token on objects of different owners in both orders; "
+           "oracles verdict-independent-of-validation-history (every verdict is compared with a FRESH validator's on the real code) and "
+           "accepted-object-bound-to-its-owner. (6) EVERY ENTRY POINT: a model of what runs before an object reaches a node's local storage "
+           "(Streamer.preparePrm, validatingTarget, distributedTarget.Close's content validation with its outside-the-container skip, "
+           "saveObject's local-only rule, ValidateAndStoreObjectLocally) over a cluster of two container nodes and one outsider and five "
+           "routes (PUT, local-only PUT, PUT through the outsider which forwards local-only PUTs, refused local-only PUT at the outsider, "
+           "Replicate): a node's storage receives an object only if its header AND its type-specific content were validated "
+           "(stored_implies_format_valid), ok means stored (cluster_ok_implies_stored), the outsider stores nothing (outsider_stores_nothing). "
+           "Tie: op entry - three REAL putsvc.Service instances (real Streamer, validatingTarget, slicer, distributedTarget.Close/saveObject, "
+           "ValidateAndStoreObjectLocally, real FormatValidator with the REAL tombstone.Verifier over a fixed object universe and a "
+           "table-driven split verifier) wired to each other (replication request -> receiver's ValidateAndStoreObjectLocally, forwarded PUT "
+           "-> receiver's local-only stream); regular / tombstone (11 content variants: target LOCK / TOMBSTONE / LINK / child of a finished V2 "
+           "or V1 chain / unavailable / already removed / split info / child of an unfinished chain / payload) / lock (payload) / link (empty, "
+           "undecodable, refused chain, no first ID) objects, client-sealed or sealed by the serving node, broken signatures; oracles "
+           "stored-object-content-valid (by the table, independent of the validators), stored-object-header-valid, "
+           "stored-payload-matches-header, stored-only-on-container-nodes. "
+           "NOT covered: EC part / parent header rules (checkEC*), nested parent headers, N3 witness signatures, NNS subjects of V2 tokens, "
+           "the gRPC layer of Server.Replicate (signature and container-membership checks: C31), split.Verifier itself (a table stands for "
+           "it), the slicer's child assembly (slices_reassemble).",
      note="Trusted: Lean kernel; hand model Model/Validate.lean and the corruption-kind table, tied by correspondence only; SHA-256 / ECDSA / "
           "protobuf are exercised, not modelled (hash = parameter H, signature = boolean). Quota arithmetic for EC rules of unprepared objects "
           "is not modelled (the tie's container has REP 1 only).",
      rule="5 declared sizes (0,1,7,64,300) x 19 header kinds x prepared/unprepared x 4-5 chunkings (whole, 1+rest, rest+1, halves, random with "
           "empty chunks), plus per size 12 (thorough 300) seeded streams shorter/longer than declared with failing downstream writes, quotas and "
-          "size limits; non-trivial = more than one chunk or a corrupted header; distinct by op",
-     trusted=["Model/Validate.lean is a hand transcription of validation.go; the per-check booleans abstract fmt.go (tie: differential run over single-field corruptions)"],
+          "size limits; 126 fixed + 120 (thorough 3000) seeded authseq sequences of 2-8 objects over <= 3 tokens; ~190 entry cases (5 routes x "
+          "4 types x content variants x client-/node-sealed x broken signature); corpus auth-history.ops, entry-content.ops; "
+          "non-trivial = more than one chunk or object, a corrupted header, invalid content or a non-default route; distinct by op",
+     trusted=["Model/Validate.lean is a hand transcription of validation.go; the per-check booleans abstract fmt.go (tie: differential run over single-field corruptions)",
+              "the session cache key (SHA-256 of the encoded token) determines the token (collision freeness)",
+              "authenticate / cluster in Model/Validate.lean are hand transcriptions of internal/crypto/object.go, distributed.go Close/saveObject, streamer.go preparePrm, local.go (tie: ops authseq and entry)"],
      assumptions=["the object header carries no payload chunk in WriteHeader (as the gRPC server feeds it)"])
 
 ENGINES.append({"name": "validate", "path": "harness/eng_validate.go", "serves_properties": ["C24"],
-                "kind_free_text": "streams SDK-built valid / single-field-corrupted objects in several chunkings through the real validatingTarget + FormatValidator over a recording, optionally failing downstream target, against Model/Validate.lean; independent re-validation oracle"})
+                "kind_free_text": "validates sequences of session-token objects by one real validator with the real shared cache; drives three real put services (PUT, local-only PUT, forwarded PUT, Replicate) with system objects of valid/invalid content; streams SDK-built valid / single-field-corrupted objects in several chunkings through the real validatingTarget + FormatValidator over a recording, optionally failing downstream target, against Model/Validate.lean; independent re-validation oracle"})
